@@ -192,7 +192,7 @@ pub fn minimal_tables(n: u16, cmap: &[(u32, u16)], extra: &[(u32, Vec<u8>)]) -> 
         let all: Vec<(u32, u32)> = map.iter().map(|x| (x.0, x.1 as u32)).collect();
         recs.push((3, 10, cmap12_subtable(&all)));
     }
-    let metrics: Vec<(u16, i16)> = (0..n).map(|g| (500 + 10 * g, 0)).collect();
+    let metrics: Vec<(u16, i16)> = (0..n).map(|g| (500 + 10 * (g % 5000), 0)).collect();
     let (glyf, loca) = empty_glyf_loca(n);
     let mut t: Vec<(u32, Vec<u8>)> = vec![
         (tag(b"head"), head(1000, 1)),
